@@ -55,6 +55,10 @@ pub struct Parsed<'a> {
     pub precision: Option<u128>,
     pub errors: Vec<String>,
     pub injected_panic: bool,
+    /// How far the one-off overhead measurement moved the clock *after* the
+    /// initial timestamp was taken (0 when it ran before, or was free): time
+    /// that lies before "just before the first sample".
+    pub setup_ticks_after_initial: u64,
 }
 
 #[derive(PartialEq, Clone, Copy)]
@@ -73,6 +77,7 @@ pub fn parse<'a>(r: &'a RunResult) -> Parsed<'a> {
         precision: None,
         errors: Vec::new(),
         injected_panic: false,
+        setup_ticks_after_initial: 0,
     };
     let mut cur: Vec<Samp<'a>> = (0..nthreads).map(|_| Samp::default()).collect();
     let mut st = vec![St::None; nthreads];
@@ -198,6 +203,16 @@ pub fn parse<'a>(r: &'a RunResult) -> Parsed<'a> {
                 p.by_thread[0].clear();
             }
         }
+    }
+    if let Some(init) = p.initial {
+        p.setup_ticks_after_initial = r.events[skip_to..]
+            .iter()
+            .filter(|e| e.seq > init.seq)
+            .filter_map(|e| match e.kind {
+                Ev::User(UserEv::Mark { tag: dsim::clock::OVERHEADS_MEASURED_TAG, a, .. }) => Some(a),
+                _ => None,
+            })
+            .fold(0u64, |x, y| x.saturating_add(y));
     }
     p
 }
